@@ -14,6 +14,29 @@ CHECKS = {
               'assignments written from the definition; a hook on SumProduct.forward records the per-SCC method. '
               'Exploration-level assurance: held on the generated cases, each feature class reached for every seed by construction.'),
         design_ref='DESIGN.md §4 C01'),
+    'C10': dict(
+        technique='boundary monitor on tree_decomposition/min_fill/quickbb/minor_min_width + validator and exact treewidth DP oracle (runtime monitoring)',
+        text=('Runtime monitoring: tree_decomposition with each method, min_fill, quickbb and the bound helpers are called on every labelled '
+              'graph with <=5 vertices (exhaustive, 1100 graphs) and on random/disconnected/named-family graphs up to 9 (quick) / 11 (thorough) '
+              'vertices in shuffled insertion orders; each result is judged by an independent validator (tree-ness, vertex/edge cover, running '
+              'intersection) and against the exact treewidth from a subset DP. Exploration level; exhaustive: true only for the <=5-vertex bound.'),
+        design_ref='DESIGN.md §4 C10'),
+    'C19': dict(
+        technique='boundary monitor on scc/nonterminal_graph + reachability-closure oracle; trace checker over solve order (runtime monitoring)',
+        text=('Runtime monitoring: fggs.utils.scc is executed on every digraph with self-loops on <=3 vertices in every vertex and neighbour '
+              'insertion order and on all 65,536 4-vertex digraphs (exhaustive for those bounds), plus random digraphs to 12 vertices, and judged '
+              'against components computed from the Warshall closure and the order condition; nonterminal_graph is compared with the relation '
+              'read off generated grammar specs; a hook on SumProduct.apply_to_patterned_tensors records the order in which SCCs are solved and an '
+              'offline checker verifies that nothing is solved before its dependencies and every nonterminal gets a value.'),
+        design_ref='DESIGN.md §4 C19'),
+    'C20': dict(
+        technique='boundary monitor with table-lookup reference model over generated domain/factor universes (runtime monitoring)',
+        text=('Runtime monitoring: for generated universes of finite/range domains (sizes 0..5, str/int/tuple values) every clause of the statement '
+              'is observed on the real classes: numberize/denumberize bijection, contains, equality by content, acceptance of exactly the right '
+              'weight shape in three representations, apply on every value tuple against a table lookup, factor equality across representations, '
+              'and every admissible and inadmissible binding (rebinding, arity, domain, unmapped label, nonterminal, unknown name) incl. that a '
+              'failed call leaves the interpretation unchanged; on FGG and FactorGraph.'),
+        design_ref='DESIGN.md §4 C20'),
 }
 
 NOT_BUILT = {}
